@@ -53,8 +53,18 @@ class MCase:
         m.update(self.extra)
         return m
 
+    # without a definition run: only totality (a constructor the model accepts must not panic; next must not panic)
+    def oracle(self, io):
+        if io and io[0] == T_PANIC:
+            return ["the constructor panicked"]
+        if io and io[0] == 0 and io[-1] == T_PANIC:
+            return ["next panicked"]
+        return None
+
     # ---- the property oracle: implementation output against the definition
     def oracle2(self, io, so, ctx):
+        if io and io[0] == T_PANIC:
+            return ["the constructor panicked"]
         if not io or io[0] != 0:
             return None  # constructor rejected: nothing to compare (C10 decides whether rightly)
         outs = io[1:]
@@ -66,6 +76,7 @@ class MCase:
         w = self.out_width * self.stride
         nsteps = len(outs) // w
         worst = 0.0
+        U = getattr(self, "u", globals()["U"])
         for t in range(nsteps):
             M = self.mags[min(t, len(self.mags) - 1)]
             A = K * U * (t + self.n_win + 8) * M * self.gain
@@ -186,7 +197,7 @@ SCALAR["Integral0"] = ("integral_new", "integral_next", "integral_peek", 0, 0, "
 SCALAR["Vidya"] = ("vidya_new", "vidya_next", "vidya_peek", 1, 254, "vidya", None, "A", lambda n: 1)
 
 
-def scalar_case(name, n, x0, xs, kind, peek=False, extra=None, with_spec=True):
+def scalar_case(name, n, x0, xs, kind, peek=False, extra=None, with_spec=True, hi_override=None):
     ent = SCALAR[name]
     new, nxt, pk, lo, hi, skind, sdef, cls, gain = ent[:9]
     omax = ent[9] if len(ent) > 9 else 254
@@ -198,6 +209,9 @@ def scalar_case(name, n, x0, xs, kind, peek=False, extra=None, with_spec=True):
     else:
         term = "run_scalar %s %s (%d) %s %s" % (new, nxt, n, coq_float(x0), flist(xs))
     spec = None
+    if hi_override is not None:
+        hi = hi_override
+        omax = max(omax, 1000)
     valid = lo <= n <= hi
     ofn = None
     g = gain(max(n, 1))
